@@ -3,7 +3,7 @@
 From Coq Require Import String.
 From Coq Require Import List Bool NArith.
 Import ListNotations.
-From DV Require Import Text Delta DeltaFacts DeltaHeader.
+From DV Require Import Text Delta DeltaFacts DeltaHeader DeltaOneHeader.
 
 (* The path delta takes from a `diff --git x/P y/P` line is P, for every path P that does not
    end in a tab — spaces, non-ASCII characters, names that look like a prefix ("a/b/x"),
@@ -36,6 +36,18 @@ Theorem C14_one_hunk_header : forall c s i r frag n body,
   all_items (steps c (number_from i ((64%N :: 64%N :: r) :: body)) s) =
   all_items s ++ [(i, IHunkHeader frag n (64%N :: 64%N :: r))] ++ render_body c (S i) body.
 Proof. exact hunk_once_in_order. Qed.
+
+(* One header per file section: from ANY state, the four header lines of a modified-file section
+   (`diff --git x/P y/P`, `index`, `--- x/P`, `+++ y/P`) add to everything rendered so far —
+   after whatever the previous section still had pending — exactly one item, the file header
+   naming P; the section is then marked handled, so nothing can add a second one. For every
+   path P (not ending in a tab) and every pair of git's mnemonic prefixes. *)
+Theorem C14_one_file_header : forall c s i x y P,
+  color_only c = false -> mnemonic x = true -> mnemonic y = true -> ends_with [tab] P = false ->
+  let s' := steps c (number_from i [git_diff_line x y P; index_line; minus_line x P; plus_line y P]) s in
+  all_items s' = all_items (flushed c s i) ++ [(S (S (S i)), IFileHeader P [])] /\
+  handled s' = Some (P, P) /\ in_diff_header s' = true.
+Proof. exact mod_section_one_header. Qed.
 
 (* Non-vacuity: one header per section, with label, both paths for a rename, mode change
    and binary file reported; the renamed-and-modified section has a single header although
